@@ -91,6 +91,10 @@ def assemble(repo, layout_path):
             em.add(rest + " {", kind="meta")
         elif cmd == "close":
             em.add("}", kind="meta")
+        elif cmd == "assume-unit":
+            u = parse_unit(os.path.join(CONTRACTS, "units", rest + ".unit"))
+            info = emit_unit(em, repo, u, table, log, assumed=True)
+            funcs.append(info)
         elif cmd == "unit":
             u = parse_unit(os.path.join(CONTRACTS, "units", rest + ".unit"))
             info = emit_unit(em, repo, u, table, log)
